@@ -27,7 +27,12 @@ def intersect_two_halfplanes(halfplane1, halfplane2):
     numba.bool_(numba.float64[::1], numba.float64[::1]),
     cache=True)
 def point_outside_of_halfplane(halfplane, point):
-    return cross2d(halfplane[2:], point - halfplane[:2]) < -EPSILON
+    # The rounding error of the cross product grows with the magnitude of
+    # its arguments, so the tolerance has to be relative.
+    diff = point - halfplane[:2]
+    scale = np.linalg.norm(halfplane[2:]) * (
+        np.linalg.norm(point) + np.linalg.norm(halfplane[:2]))
+    return cross2d(halfplane[2:], diff) < -EPSILON * max(1.0, 8.0 * scale)
 
 
 @numba.njit(
